@@ -655,6 +655,32 @@ func c17Backend(ctx *Ctx, p *c17Proc, cfg c17Cfg, r *hv.Rng, full bool) {
 		time.Sleep(300 * time.Millisecond) // the PREPARE the proxy may have sent is answered meanwhile
 		p.verdict(ctx, 11, hb.desc, true, "hostile-heartbeat-reply")
 	}
+	// the proxy's own re-PREPARE answered with UNPREPARED for the cached statement (and other odd answers): the
+	// hosts forget the statement, a client EXECUTEs it, the PREPARE the proxy then sends gets the hostile answer
+	for _, pr := range []rep{
+		{"re-PREPARE answered UNPREPARED with the cached id, then accepted", fb.Outcome{Kind: fb.RawReply, RawOpcode: 0, RawBody: cachedUnprep}},
+		{"re-PREPARE answered with a void RESULT", fb.Outcome{Kind: fb.RawReply, RawOpcode: 8, RawBody: []byte{0, 0, 0, 1}}},
+		{"re-PREPARE answered with garbage", fb.Outcome{Kind: fb.RawReply, RawOpcode: 8, RawBody: []byte{0, 0, 0, 4, 0xff}}},
+		{"re-PREPARE answered with READY", fb.Outcome{Kind: fb.RawReply, RawOpcode: 2}},
+	} {
+		if !p.alive() {
+			return
+		}
+		for h := 1; h <= 2; h++ {
+			p.be.Forget(h)
+		}
+		p.be.SetPrepareOutcomes(hexOf(id), pr.out, pr.out)
+		cl, err := px.Dial(p.addr)
+		if err == nil {
+			_ = cl.Startup(p.cver, "")
+			_ = cl.Send(p.cver, 4, &message.Execute{QueryId: id, ResultMetadataId: id, Options: &message.QueryOptions{PositionalValues: []*primitive.Value{primitive.NewValue([]byte("tok:reprep"))}}})
+			_, _ = cl.Next(1500 * time.Millisecond)
+			cl.Close()
+		}
+		p.be.SetPrepareOutcomes(hexOf(id))
+		p.be.PrepareEverywhere(q)
+		p.verdict(ctx, 12, pr.desc, true, "hostile-reprepare-reply")
+	}
 	// garbage EVENT frames on the control connection
 	for _, body := range [][]byte{nil, {0}, {0, 3, 'F', 'O', 'O'}, shortString("SCHEMA_CHANGE"), append(shortString("SCHEMA_CHANGE"), shortString("CREATED")...),
 		append(shortString("TOPOLOGY_CHANGE"), shortString("NEW_NODE")...), append(append(shortString("STATUS_CHANGE"), shortString("UP")...), 99, 1, 2), r.Bytes(30)} {
